@@ -17,6 +17,7 @@ mod glyfhostile;
 mod ift;
 mod kernels;
 mod matrix;
+mod psweep;
 mod synth;
 
 use std::cell::RefCell;
